@@ -14,6 +14,7 @@ from ..report import Finding
 from ..shims import Key
 from .common import *
 from .equiv import *
+from .convspec import option_box
 
 
 def worker(job):
@@ -113,6 +114,13 @@ def run(ctx):
                     # elements are added as redundancy
                     gsel = ((3, 6) if D == 2 else (29,)) if th else ()
                     jobs.append((ctx.repo, D, isig, osig, bias, padding, rd, ld, flags, tuple(gsel), (1,) + (0,) * (D - 2) + (2,)))
+    # the option box shared by C01 / C04 / C06 / C11 (symmetric paddings, unit stride), one signature, bias 'auto'
+    for D in (2, 3) if th else (2,):
+        for padding, stride, rd, ld, flags in option_box(D, (3,) * D, symmetric_only=True, unit_stride=True):
+            if (not isinstance(rd, int) and len(set(rd)) > 1) or (ld is not None and len(set(ld)) > 1):
+                continue  # a layer with anisotropic dilations is not symmetric by construction (its options do not travel with g)
+            flags = flags if all(flags) else (False,) * D  # cubic grid: flags do not travel here (C01 / C02 cover that)
+            jobs.append((ctx.repo, D, sig3[0], sig3[1], "auto", padding, rd, ld, flags, (), (1,) + (0,) * (D - 2) + (2,)))
     by = {}
     for job, r in ctx.pairs(worker, jobs):
         cfg = r["cfg"]
